@@ -19,7 +19,7 @@ package vanguard
 
 // frames (macros)
 //@ define LIB = $map|, $elems|, $connerr|
-//@ define RWENDB = #RWEND, $buf|len
+//@ define RWB = #RWEND, $buf|len
 //@ define RWEND = $vanguard.responseWriter.headersFlushed, $vanguard.responseWriter.buf, $vanguard.responseWriter.err, $vanguard.responseWriter.endWritten, $vanguard.responseWriter.respMeta, $vanguard.responseMeta.end, $vanguard.responseEnd., #LIB
 
 // ------------------------------------------------------------------------------------------------
@@ -149,6 +149,12 @@ package vanguard
 //@ |  && (w.headersWritten && !w.endWritten ==> w.respMeta != nil)
 //@ |  && (w.headersFlushed ==> w.respMeta != nil)
 //@ |  && (w.w != nil ==> w.headersWritten)
+// rwStep: how the state machine may move in any step that is not WriteHeader (reflexive, transitive).
+//@ pred rwStep(w) = w.op == old(w.op) && w.delegate == old(w.delegate) && w.flusher == old(w.flusher) && w.contentLen == old(w.contentLen)
+//@ |  && w.w == old(w.w) && w.headersWritten == old(w.headersWritten) && w.code == old(w.code)
+//@ |  && (old(w.endWritten) ==> w.endWritten && w.err == old(w.err) && w.respMeta == old(w.respMeta) && w.buf == old(w.buf))
+//@ |  && (old(w.headersFlushed) ==> w.headersFlushed) && (old(w.respMeta) != nil ==> w.respMeta != nil)
+//@ |  && (w.buf == old(w.buf) || w.buf == nil)
 
 //@ func (*responseWriter).flushMessage
 //@   requires validRW(w)
@@ -159,6 +165,7 @@ package vanguard
 
 //@ func (*responseWriter).writeEnd
 //@   requires validRW(w) && end != nil && !w.endWritten
+//@   step rwStep(w)
 //@   track ends = (vanguard.clientProtocolHandler).encodeEnd
 //@   ensures[C03] w.endWritten && ends == 1
 //@   ensures w.headersFlushed == old(w.headersFlushed) && w.err == old(w.err) && w.buf == old(w.buf) && w.respMeta == old(w.respMeta)
@@ -196,6 +203,7 @@ package vanguard
 //@ func (*responseWriter).flushHeaders
 //@   requires validRW(w) && (w.headersFlushed || (w.respMeta != nil && !w.endWritten))
 //@   requires (w.buf != nil ==> !w.headersFlushed) && (w.endWritten ==> w.err != nil)
+//@   step rwStep(w)
 //@   track heads = (net/http.ResponseWriter).WriteHeader
 //@   atcall[C03,C11] (net/http.ResponseWriter).WriteHeader: !w.headersFlushed && heads == 1
 //@   atcall[C03] (net/http.ResponseWriter).WriteHeader: w.buf != nil && !(w.respMeta.end != nil && w.respMeta.end.err != nil) ==> decval(hdr(uf("hdrOf", w.delegate), "Content-Length")) == blen(w.buf)
@@ -209,6 +217,7 @@ package vanguard
 
 //@ func (*responseWriter).reportEnd
 //@   requires rwInv(w) && end != nil
+//@   step rwStep(w)
 //@   ensures[C03,C09] rwInv(w) && w.endWritten
 //@   ensures[C03] old(w.endWritten) ==> w.err == old(w.err) && w.headersFlushed == old(w.headersFlushed) && w.respMeta == old(w.respMeta) && w.buf == old(w.buf)
 //@   ensures w.w == old(w.w) && w.headersWritten == old(w.headersWritten)
@@ -216,6 +225,7 @@ package vanguard
 
 //@ func (*responseWriter).reportError
 //@   requires rwInv(w)
+//@   step rwStep(w)
 //@   ensures[C03,C09] rwInv(w) && w.endWritten
 //@   ensures w.w == old(w.w) && w.headersWritten == old(w.headersWritten)
 //@   modifies w.headersFlushed, w.buf, w.err, w.endWritten, w.respMeta, $vanguard.responseMeta.end, $vanguard.responseEnd., owned(w.buf), blen(w.buf), #LIB
@@ -227,6 +237,7 @@ package vanguard
 //@   preserves l != nil && l.buf != nil && rwInv(l.rw)
 //@   stable l.rw.endWritten
 //@   stable l.rw.respMeta != nil
+//@   step rwStep(l.rw)
 //@   ensures[C10,C08] old(blen(l.buf)) + len(data) > l.limit ==> n == 0 && err != nil && l.rw.endWritten
 //@   ensures[C10,C08] old(blen(l.buf)) + len(data) <= l.limit ==> n == len(data) && err == nil && blen(l.buf) == old(blen(l.buf)) + len(data)
 //@   ensures[C10] old(blen(l.buf)) + len(data) <= l.limit ==> l.rw.endWritten == old(l.rw.endWritten)
@@ -236,6 +247,7 @@ package vanguard
 
 //@ func (*errorWriter).Write
 //@   requires e != nil && rwInv(e.rw)
+//@   step rwStep(e.rw)
 //@   ensures[C10] e.buffer != nil && old(blen(e.buffer)) + len(data) > limitOf(e.rw.op) ==> r0 == 0 && err != nil && e.rw.endWritten
 //@   ensures[C10,C08] e.buffer != nil && old(blen(e.buffer)) + len(data) <= limitOf(e.rw.op) ==> r0 == len(data) && err == nil && blen(e.buffer) == old(blen(e.buffer)) + len(data)
 //@   ensures e.buffer == nil ==> r0 == 0 && err != nil
@@ -263,24 +275,27 @@ package vanguard
 
 //@ func (*envelopingWriter).writeBytes
 //@   requires validEW(w) && (w.writingEnvelope ==> 0 <= w.remainingBytes && w.remainingBytes <= 5) && (!w.writingEnvelope ==> w.current != nil)
+//@   step rwStep(w.rw)
 //@   ensures[C08] 0 <= r0 && r0 <= len(data) && (r1 == nil ==> r0 == len(data))
 //@   ensures[C08] old(w.writingEnvelope) ==> r0 == len(data) && r1 == nil
 //@   ensures validEW(w) && w.rw == old(w.rw) && (old(w.rw.endWritten) ==> w.rw.endWritten)
-//@   modifies w.env, owned(w.rw.buf), #RWENDB
+//@   modifies w.env, owned(w.rw.buf), #RWB
 
 //@ func (*envelopingWriter).maybeInit
 //@   requires validEW(w) && (!w.initialized ==> w.err == nil && w.current == nil && !w.writingEnvelope && !w.mustReleaseCurrent && !w.currentIsTrailer)
 //@   requires w.initialized ==> ewInv(w)
+//@   step rwStep(w.rw)
 //@   ensures w.initialized && ewInv(w) && w.rw == old(w.rw) && w.w == old(w.w)
 //@   ensures old(w.initialized) ==> w.err == old(w.err) && w.remainingBytes == old(w.remainingBytes) && w.writingEnvelope == old(w.writingEnvelope) && w.current == old(w.current)
 //@   ensures[C03] !old(w.initialized) && w.rw.op.serverEnveloper == nil && w.rw.op.clientEnveloper != nil && w.rw.contentLen != -1 && w.err == nil ==> w.remainingBytes == w.rw.contentLen
 //@   ensures[C10,C03] !old(w.initialized) && w.rw.op.serverEnveloper == nil && w.rw.op.clientEnveloper != nil && w.rw.contentLen > limitOf(w.rw.op) ==> w.err != nil && w.rw.endWritten
 //@   ensures old(w.rw.endWritten) ==> w.rw.endWritten
-//@   modifies w.initialized, w.writingEnvelope, w.remainingBytes, w.current, w.mustReleaseCurrent, w.err, $vanguard.limitWriter., $buf|owned, #RWENDB
+//@   modifies w.initialized, w.writingEnvelope, w.remainingBytes, w.current, w.mustReleaseCurrent, w.err, $vanguard.limitWriter., $buf|owned, #RWB
 
 //@ func (*envelopingWriter).handleEnvelopeWritten
 //@   requires validEW(w) && relInv(w)
 //@   requires w.err == nil && w.initialized && !w.currentIsTrailer && !w.mustReleaseCurrent
+//@   step rwStep(w.rw)
 //@   ensures[C09] err != nil ==> w.rw.endWritten || w.err != nil
 //@   ensures[C10] err == nil ==> w.remainingBytes >= 0 && w.remainingBytes <= 4294967295 && !w.writingEnvelope && w.current != nil
 //@   ensures[C10] err == nil && w.currentIsTrailer ==> w.remainingBytes <= limitOf(w.rw.op)
@@ -289,27 +304,30 @@ package vanguard
 //@   ensures w.currentIsTrailer ==> w.rw.op.serverEnveloper != nil
 //@   ensures err != nil ==> w.current == old(w.current) && w.mustReleaseCurrent == old(w.mustReleaseCurrent) && w.remainingBytes == old(w.remainingBytes) && w.currentIsTrailer == old(w.currentIsTrailer)
 //@   ensures relInv(w) && (err == nil && !w.currentIsTrailer ==> !w.mustReleaseCurrent)
-//@   modifies w.writingEnvelope, w.current, w.mustReleaseCurrent, w.currentIsTrailer, w.trailerIsCompressed, w.remainingBytes, w.err, $buf|owned, #RWENDB
+//@   modifies w.writingEnvelope, w.current, w.mustReleaseCurrent, w.currentIsTrailer, w.trailerIsCompressed, w.remainingBytes, w.err, $buf|owned, #RWB
 
 //@ func (*envelopingWriter).handleTrailer
 //@   requires validEW(w) && relInv(w)
 //@   requires w.current != nil && w.initialized
 //@   requires w.rw.op.serverEnveloper != nil
+//@   step rwStep(w.rw)
 //@   ensures[C09,C03] err == nil ==> w.rw.endWritten && w.err != nil
 //@   ensures validEW(w) && w.rw == old(w.rw) && w.initialized && (old(w.rw.endWritten) ==> w.rw.endWritten)
 //@   ensures relInv(w)
-//@   modifies w.mustReleaseCurrent, w.err, $buf|owned, #RWENDB
+//@   modifies w.mustReleaseCurrent, w.err, $buf|owned, #RWB
 
 //@ func (*envelopingWriter).Write
 //@   requires ewInv(w) && (!w.initialized ==> w.err == nil && w.current == nil && !w.writingEnvelope && !w.mustReleaseCurrent && !w.currentIsTrailer)
+//@   step rwStep(w.rw)
 //@   ensures[C08] 0 <= n && n <= len(data) && (err == nil ==> n == len(data))
 //@   ensures ewInv(w) && w.initialized && w.rw == old(w.rw) && (old(w.rw.endWritten) ==> w.rw.endWritten)
 //@   loop 1 invariant[C08] written >= 0 && written + len(data) == len(old(data))
-//@   loop 1 invariant ewInv(w) && w.initialized && w.remainingBytes != -1 && w.rw == old(w.rw) && (old(w.rw.endWritten) ==> w.rw.endWritten)
+//@   loop 1 invariant ewInv(w) && w.initialized && w.remainingBytes != -1 && w.rw == old(w.rw) && rwStep(w.rw)
 //@   loop 1 decreases len(data), ite(w.writingEnvelope, 0, 1), ite(w.err == nil, 1, 0)
 
 //@ func (*envelopingWriter).Close
 //@   requires ewInv(w)
+//@   step rwStep(w.rw)
 //@   ensures[C09] r0 == nil && old(w.remainingBytes) > 0 && !(old(w.writingEnvelope) && old(w.remainingBytes) == 5) ==> w.rw.endWritten
 //@   ensures[C09] r0 == nil ==> w.err != nil && w.current == nil
 //@   ensures rwInv(w.rw) && w.rw == old(w.rw) && (old(w.rw.endWritten) ==> w.rw.endWritten)
@@ -398,6 +416,7 @@ package vanguard
 //@   requires validTW(w) && w.buffer != nil && w.buffer == w.msg.buf && w.err == nil && owned(w.buffer)
 //@   requires w.latestEnvelope.trailer ==> w.rw.op.serverEnveloper != nil
 //@   requires[C03] !w.rw.endWritten
+//@   step rwStep(w.rw)
 //@   track flushed = (*responseWriter).flushMessage
 //@   atcall[C03] (io.Writer).Write: !w.rw.endWritten
 //@   ensures[C16] err == nil && !w.latestEnvelope.trailer ==> flushed == 1
@@ -414,10 +433,11 @@ package vanguard
 
 //@ func (*transformingWriter).Write
 //@   requires twInv(w)
+//@   step rwStep(w.rw)
 //@   ensures[C08] 0 <= n && n <= len(data) && (err == nil ==> n == len(data))
 //@   ensures twInv(w) && w.rw == old(w.rw) && (old(w.rw.endWritten) ==> w.rw.endWritten)
 //@   loop 1 invariant[C08] written >= 0 && written + len(data) == len(old(data))
-//@   loop 1 invariant twInv(w) && (w.err == nil ==> w.buffer != nil && w.expectingBytes != -1) && w.rw == old(w.rw) && (old(w.rw.endWritten) ==> w.rw.endWritten)
+//@   loop 1 invariant twInv(w) && (w.err == nil ==> w.buffer != nil && w.expectingBytes != -1) && w.rw == old(w.rw) && rwStep(w.rw)
 //@   loop 1 decreases len(data), ite(w.writingEnvelope, 0, 1), ite(w.err == nil, 1, 0)
 
 // ------------------------------------------------------------------------------------------------
